@@ -5,6 +5,7 @@
   generation start.
 -/
 import GoNeat.Proofs.RegistrySteps
+import GoNeat.Proofs.MaxFrom
 import GoNeat.Model.Epoch
 import GoNeat.Spec.PopInv
 
@@ -1017,48 +1018,6 @@ theorem prepare_from (o : EpochOpts W) (p p1 : Pop W) (ex : ExecState) (rs rs1 :
 
 /-! ### counters past the start genome(s) -/
 
-theorem last_is_max {α} (key : α → Int) (l : List α) (h : l.Pairwise (fun a b => key a ≤ key b)) (last : α)
-    (hl : l.getLast? = some last) : ∀ x ∈ l, key x ≤ key last := by
-  obtain ⟨ys, rfl⟩ := List.getLast?_eq_some_iff.mp hl
-  intro x hx
-  rcases List.mem_append.mp hx with hx | hx
-  · exact (List.pairwise_append.mp h).2.2 x hx last (by simp)
-  · simp only [List.mem_singleton] at hx; subst hx; exact Int.le_refl _
-
-theorem foldl_max_ge (ms : List (Module W)) (init : Int) :
-    init ≤ ms.foldl (fun acc m => if m.ctrl.id > acc then m.ctrl.id else acc) init := by
-  induction ms generalizing init with
-  | nil => exact Int.le_refl _
-  | cons m ms ih =>
-    simp only [List.foldl_cons]
-    refine Int.le_trans ?_ (ih _)
-    split <;> omega
-
-theorem lastNodeId_ge (g : Genome W) (ln : Int) (h : g.lastNodeId = .ok ln) (hs : g.nodes.Pairwise (fun a b => a.id ≤ b.id)) :
-    ∀ n ∈ g.nodes, n.id ≤ ln := by
-  unfold Genome.lastNodeId at h
-  split at h
-  · cases h
-  · rename_i last hl
-    simp only [Except.ok.injEq] at h
-    subst h
-    intro n hn
-    exact Int.le_trans (last_is_max (·.id) g.nodes hs last hl n hn) (foldl_max_ge _ _)
-
-theorem nextGeneInnov_gt (g : Genome W) (ni : Int) (h : g.nextGeneInnov = .ok ni) (hs : g.genes.Pairwise (fun a b => a.inn ≤ b.inn)) :
-    ∀ x ∈ g.genes, x.inn ≤ ni - 1 := by
-  unfold Genome.nextGeneInnov at h
-  split at h
-  · cases h
-  · rename_i last hl
-    have hmax := last_is_max (·.inn) g.genes hs last hl
-    split at h
-    · simp only [Except.ok.injEq] at h; subst h
-      intro x hx; have := hmax x hx; omega
-    · simp only [Except.ok.injEq] at h; subst h
-      intro x hx; have := hmax x hx
-      split <;> omega
-
 /-- the counters of a population constructed around a set of genomes are past all of them -/
 theorem inv_of_counters (gs : List (Genome W)) (nextInn nextNode : Int) (hc : ConsistentGenes gs) (hr : ConsistentRoles gs)
     (hi : ∀ g ∈ gs, ∀ x ∈ g.genes, x.inn ≤ nextInn) (hn : ∀ g ∈ gs, ∀ n ∈ g.nodes, n.id ≤ nextNode) :
@@ -1099,7 +1058,7 @@ theorem spawnLoop_same (g : Genome W) (n : Nat) (count : Int) (uid : Nat) (rs rs
           · exact ih _ _ _ _ _ hrest org horg
 
 theorem spawn_popC03 (o : EpochOpts W) (g : Genome W) (rs rs' : List Nat) (p : Pop W) (h : spawn o g rs = .ok (p, rs'))
-    (hasc : Ascending g) (hc : ConsistentGenes [g]) (hr : ConsistentRoles [g]) : PopC03 [g] p := by
+    (hc : ConsistentGenes [g]) (hr : ConsistentRoles [g]) : PopC03 [g] p := by
   unfold spawn at h
   split at h
   · cases h
@@ -1125,10 +1084,10 @@ theorem spawn_popC03 (o : EpochOpts W) (g : Genome W) (rs rs' : List Nat) (p : P
             simp only at r1
             have hinv : Inv ({ records := [], nextInn := ni - 1, nextNode := ln + 1 } : Reg W) [g] :=
               inv_of_counters [g] _ _ hc hr
-                (fun g' hg' x hx => by simp only [List.mem_singleton] at hg'; subst hg'; exact nextGeneInnov_gt _ _ hni hasc.1 x hx)
+                (fun g' hg' x hx => by simp only [List.mem_singleton] at hg'; subst hg'; exact Genome.nextGeneInnov_gt _ _ hni x hx)
                 (fun g' hg' n hn => by
                   simp only [List.mem_singleton] at hg'; subst hg'
-                  have := lastNodeId_ge _ _ hln hasc.2 n hn; omega)
+                  have := Genome.lastNodeId_ge _ _ hln n hn; omega)
             exact ⟨r1 ▸ hinv, c1, by rw [r1]⟩
 
 /-! #### `ReadPopulation` and `NewPopulationRandom` -/
@@ -1150,16 +1109,16 @@ theorem readCounters_ge (gs : List (Genome W)) (c : Int × Int) : c.1 ≤ (readC
       exact ⟨Int.le_trans a a', Int.le_trans b b'⟩
     · exact ih c
 
-/-- the counters `ReadPopulation` ends with are past every genome read (each with at least one node and gene, both
-    ascending - the reader looks at the LAST node / gene only) -/
+/-- the counters `ReadPopulation` ends with are past every genome read (each with at least one node and gene; since
+    fix 48b1f99 the accessors take the maximum, so no ordering is needed) -/
 theorem readCounters_above (gs : List (Genome W)) (c : Int × Int)
-    (hok : ∀ g ∈ gs, g.nodes ≠ [] ∧ g.genes ≠ [] ∧ Ascending g) :
+    (hok : ∀ g ∈ gs, g.nodes ≠ [] ∧ g.genes ≠ []) :
     ∀ g ∈ gs, (∀ n ∈ g.nodes, n.id ≤ (readCounters gs c).1) ∧ (∀ x ∈ g.genes, x.inn ≤ (readCounters gs c).2) := by
   induction gs generalizing c with
   | nil => intro g hg; cases hg
   | cons g0 gs ih =>
     intro g hg
-    obtain ⟨hn0, hg0, hasc⟩ := hok g0 List.mem_cons_self
+    obtain ⟨hn0, hg0⟩ := hok g0 List.mem_cons_self
     unfold readCounters
     split
     · rename_i ln ni hln hni
@@ -1167,21 +1126,13 @@ theorem readCounters_above (gs : List (Genome W)) (c : Int × Int)
       obtain ⟨m1, m2⟩ := readCounters_ge gs (readStep c ln ni)
       rcases List.mem_cons.mp hg with rfl | hg
       · refine ⟨fun n hn => ?_, fun x hx => ?_⟩
-        · have := lastNodeId_ge _ _ hln hasc.2 n hn; omega
-        · have := nextGeneInnov_gt _ _ hni hasc.1 x hx; omega
+        · have := Genome.lastNodeId_ge _ _ hln n hn; omega
+        · have := Genome.nextGeneInnov_gt _ _ hni x hx; omega
       · exact ih _ (tail_of hok) g hg
     · rename_i hbad
       exfalso
-      have h1 : ∃ ln, g0.lastNodeId = .ok ln := by
-        unfold Genome.lastNodeId
-        cases hl : g0.nodes.getLast? with
-        | none => exact absurd (List.getLast?_eq_none_iff.mp hl) hn0
-        | some n => exact ⟨_, rfl⟩
-      have h2 : ∃ ni, g0.nextGeneInnov = .ok ni := by
-        unfold Genome.nextGeneInnov
-        cases hl : g0.genes.getLast? with
-        | none => exact absurd (List.getLast?_eq_none_iff.mp hl) hg0
-        | some n => simp only; split <;> exact ⟨_, rfl⟩
+      have h1 := g0.lastNodeId_ok hn0
+      have h2 := g0.nextGeneInnov_ok hg0
       obtain ⟨ln, e1⟩ := h1
       obtain ⟨ni, e2⟩ := h2
       exact hbad ln ni e1 e2
